@@ -119,6 +119,12 @@ def member_props_for(fold: Folder, mod: Any, enum_name: str) -> Dict[str, Any]:
     return props
 
 
+def _root_name(e: ast.AST) -> Optional[str]:
+    while isinstance(e, (ast.Attribute, ast.Subscript, ast.Call)):
+        e = e.func if isinstance(e, ast.Call) else e.value
+    return e.id if isinstance(e, ast.Name) else None
+
+
 def run(ctx: Any, prog: Program) -> None:
     bsp = prog.module('bsp')
     fold = Folder(prog, bsp)
@@ -300,6 +306,71 @@ def run(ctx: Any, prog: Program) -> None:
                       'only under that fold come back as the first spelling, and the table loses an entry', func=f'BSP.{wname}', text=label)
     if n19 < 1 or n19h < 15:
         raise AnalysisError(f'L19: de-duplicating writers found: {n19} try/except tables, {n19h} find_or_insert helpers (BSP._lmp_write_texinfo and 20+ helper calls confirmed by hand)')
+    # ---- L21: a writer serialises the value it is given, it does not edit it --------------------------------------------------------------
+    # The reader returns what is in the lump.  A writer that first "corrects" the value (copies the map version over worldspawn's own
+    # `mapversion` key, clamps a coordinate in place) writes something else than it was handed, and changes the caller's object as well.
+    ctx.rule('C11.L21', 'lump writers do not store into the value they serialise', floor=15)
+    MUT21 = {'append', 'extend', 'insert', 'pop', 'remove', 'clear', 'add', 'discard', 'update', 'setdefault', 'sort', 'reverse', 'popitem', '__setitem__', '__delitem__'}
+    for wname, wfn in bsp.methods('BSP').items():
+        if not (wname.startswith('_lmp_write') or wname == 'write_ent_data'):
+            continue
+        is_static = any(dotted(d) == 'staticmethod' for d in wfn.decorator_list)
+        vparams = [a.arg for a in (wfn.args.args if is_static else wfn.args.args[1:])]
+        if not vparams:
+            continue
+        vp = vparams[0]
+        # locals that alias (parts of) the value: loop variables over it, attributes of it
+        alias = {vp}
+        for _ in range(3):
+            for n in ast.walk(wfn):
+                if isinstance(n, ast.For) and any(isinstance(x, ast.Name) and x.id in alias for x in ast.walk(n.iter)):
+                    alias |= {x.id for x in ast.walk(n.target) if isinstance(x, ast.Name)}
+                if isinstance(n, ast.Assign) and isinstance(n.value, (ast.Attribute, ast.Subscript)) and _root_name(n.value) in alias:
+                    alias |= {t.id for t in n.targets if isinstance(t, ast.Name)}
+        hits = []
+        for n in ast.walk(wfn):
+            tg = []
+            if isinstance(n, ast.Assign):
+                tg = [t for t0 in n.targets for t in (t0.elts if isinstance(t0, (ast.Tuple, ast.List)) else [t0])]
+            elif isinstance(n, (ast.AugAssign, ast.AnnAssign)) and getattr(n, 'value', None) is not None:
+                tg = [n.target]
+            elif isinstance(n, ast.Delete):
+                tg = list(n.targets)
+            for t in tg:
+                if isinstance(t, (ast.Attribute, ast.Subscript)) and _root_name(t) in alias:
+                    hits.append(n)
+            if isinstance(n, ast.Call) and isinstance(n.func, ast.Attribute) and n.func.attr in MUT21 and isinstance(n.func.value, (ast.Attribute, ast.Subscript, ast.Name)) and _root_name(n.func.value) in alias \
+                    and not (isinstance(n.func.value, ast.Name) and n.func.value.id not in vparams):
+                hits.append(n)
+        # confirmed by reading: the `model` key of a brush entity is not content but the reference to its brush model (`*<index>`), an index
+        # that the writer re-numbers exactly as find_or_insert() re-numbers every other cross-lump reference; the reader resolves it back
+        if wname == '_lmp_write_bmodels':
+            hits = [h for h in hits if not (isinstance(h, ast.Assign) and len(h.targets) == 1 and isinstance(h.targets[0], ast.Subscript) and isinstance(h.targets[0].slice, ast.Constant) and h.targets[0].slice.value == 'model')]
+        # confirmed by reading: the output separator is a property of the *file* that the caller may force by argument; Output.as_keyvalue()
+        # takes it from the object, so the writer sets it there first (C10.B9 decides which separator save() passes)
+        if wname == 'write_ent_data':
+            hits = [h for h in hits if not (isinstance(h, ast.Assign) and len(h.targets) == 1 and isinstance(h.targets[0], ast.Attribute) and h.targets[0].attr == 'comma_sep' and isinstance(h.value, ast.Name) and h.value.id in vparams)]
+        ctx.check('C11.L21', not hits, bsp, hits[0] if hits else wfn, f'BSP.{wname} changes the value it is asked to write (`{U(hits[0])[:70] if hits else ""}`): what is saved is no longer what the view held, and the caller\'s object '
+                  'is edited by a save', func=f'BSP.{wname}', text=f'{wname}: value not modified')
+
+    # ---- L22: a value that does not fit its field is refused, not bent to fit ----------------------------------------------------------------
+    # struct.pack raises for an out-of-range integer; that is how a writer refuses what the format cannot hold.  `min(max(v, LOW), HIGH)` in
+    # front of the pack turns the refusal into a silent change of the value (the file reads back with other numbers than were assigned).
+    ctx.rule('C11.L22', 'lump writers do not saturate values into the range of their field', floor=1)
+    n22 = 0
+    for wname, wfn in bsp.methods('BSP').items():
+        if not wname.startswith(('_lmp_write', '_write_')):
+            continue
+        for c in ast.walk(wfn):
+            if isinstance(c, ast.Call) and dotted(c.func) in ('min', 'max') and len(c.args) == 2:
+                inner = [a for a in c.args if isinstance(a, ast.Call) and dotted(a.func) in ('min', 'max') and dotted(a.func) != dotted(c.func) and len(a.args) == 2]
+                consts = [a for a in c.args if isinstance(a, (ast.Constant, ast.UnaryOp)) or (isinstance(a, ast.Name) and a.id.isupper())]
+                if inner and consts and any(isinstance(a, (ast.Constant, ast.UnaryOp)) or (isinstance(a, ast.Name) and a.id.isupper()) for a in inner[0].args):
+                    n22 += 1
+                    ctx.check('C11.L22', False, bsp, c, f'BSP.{wname} clamps a value with `{U(c)[:60]}` before writing it: a value outside the field is stored as the nearest bound instead of being refused, '
+                              'and comes back changed', func=f'BSP.{wname}', text=f'{wname}: no saturation `{U(c)[:40]}`')
+    ctx.check('C11.L22', True, bsp, bsp.tree, f'{n22} saturating clamps found in lump writers', func='BSP', text='lump writers examined for saturating clamps')
+
     # ---- L20: formats that come from the per-game layout table are consulted alike on both sides -----------------------------------------
     # `self.lump_layout[KEY]` is how the record width follows the BSP flavour (Chaos v25 widens indexes).  A side that takes the table entry
     # only under a further condition (`layout[K] if vers >= 12 else '<H'`) while the other side always takes it disagrees for the flavours
@@ -743,6 +814,8 @@ def run(ctx: Any, prog: Program) -> None:
 
 
 MUTANTS = [
+    {'id': 'visleaf_bounds_saturated', 'file': 'bsp.py', 'find': "                    int(leaf.mins.x), int(leaf.mins.y), int(leaf.mins.z),\n                    int(leaf.maxes.x), int(leaf.maxes.y), int(leaf.maxes.z),\n                    face_ind, len(leaf.faces),\n                    brush_ind, len(leaf.brushes),\n                    leaf.water_id)", 'replace': "                    min(max(int(leaf.mins.x), -0x8000), 0x7FFF), int(leaf.mins.y), int(leaf.mins.z),\n                    int(leaf.maxes.x), int(leaf.maxes.y), int(leaf.maxes.z),\n                    face_ind, len(leaf.faces),\n                    brush_ind, len(leaf.brushes),\n                    leaf.water_id)", 'expect': 'C11.L22', 'nth': 0},
+    {'id': 'ent_writer_refreshes_mapversion', 'file': 'bsp.py', 'find': "        out = BytesIO()\n        for ent in itertools.chain([vmf.spawn], vmf.entities):", 'replace': "        if 'mapversion' in vmf.spawn:\n            vmf.spawn['mapversion'] = str(vmf.map_ver)\n        out = BytesIO()\n        for ent in itertools.chain([vmf.spawn], vmf.entities):", 'expect': 'C11.L21'},
     {'id': 'texdata_get_form_keyed_by_material', 'file': 'bsp.py', 'find': "            try:\n                ind = texdata_ind[tdat]\n            except KeyError:\n                ind = texdata_ind[tdat] = next_ind", 'replace': "            mat_key = tdat.mat.casefold()\n            ind = texdata_ind.get(mat_key)\n            if ind is None:\n                ind = texdata_ind[mat_key] = next_ind", 'expect': 'C11.L19'},
     {'id': 'ok_texdata_get_form', 'file': 'bsp.py', 'find': "            try:\n                ind = texdata_ind[tdat]\n            except KeyError:\n                ind = texdata_ind[tdat] = next_ind", 'replace': "            ind = texdata_ind.get(tdat)\n            if ind is None:\n                ind = texdata_ind[tdat] = next_ind", 'expect': None},
     {'id': 'prop_leaf_width_by_prop_version', 'file': 'bsp.py', 'find': "        prop_lump.write(write_array(self.lump_layout['STATICPROPLEAF'], leaf_array))", 'replace': "        prop_lump.write(write_array(self.lump_layout['STATICPROPLEAF'] if vers_num >= 12 else '<H', leaf_array))", 'expect': 'C11.L20'},
